@@ -44,7 +44,59 @@ def scope(ctx):
     return out
 
 
+SIZE_CHANGERS = ("push_back", "emplace_back", "pop_back", "erase", "clear", "resize", "insert", "emplace", "assign", "swap", "reserve_and_fill")
+
+
+def selection_index_is_within_the_selected_range(ctx):
+    """A percentile cut-off picks the n-th element of a sequence, with n computed from a size: the sequence that std::nth_element is
+    run over (and that is subscripted with n afterwards) has exactly that size - it is the container whose size() n was computed from,
+    or an unmodified copy of it.  An index computed from the number of candidates but applied to a shorter list (those with an available
+    statistic) points past its end whenever enough statistics are unavailable: undefined behaviour inside the tick."""
+    P = ctx.prog
+    n_sites = 0
+    for f in sorted(P.fns.values(), key=lambda x: (x.file, x.line, x.usr)):
+        if not f.file.startswith("oomd/") or f.file.endswith("Test.cpp"):
+            continue
+        for i in f.calls("nth_element", "std::nth_element", "partial_sort", "std::partial_sort"):
+            a = f.nodes[i].get("args", [])
+            if len(a) < 3:
+                continue
+            n_sites += 1
+            ctx.use(f)
+            inst = "selection-index-within-range:%s@%d" % (short(f), f.nodes[i].get("line", 0))
+            m0 = re.match(r"^(.+)\.c?begin\(\)$", f.text(a[0]))
+            m2 = re.match(r"^(.+)\.c?end\(\)$", f.text(a[2]))
+            m1 = re.match(r"^\((.+)\.c?begin\(\) \+ (\w+)\)$", f.text(a[1]))
+            if not (m0 and m1 and m2) or not (m0.group(1) == m1.group(1) == m2.group(1)):
+                ctx.broken(inst, "anchor", f.loc(i), "cannot read the selection as (C.begin(), C.begin() + n, C.end()) over one container: %s" % [f.text(x)[:40] for x in a[:3]])
+                continue
+            cont, idx = m0.group(1), m1.group(2)
+            init, v = local_init(f, idx, must=False)
+            if v is None or init is None or init < 0 or local_writes(f, idx, must=False):
+                ctx.broken(inst, "anchor", f.loc(i), "the index %s is not a once-initialised local" % idx)
+                continue
+            sized = sorted(set(re.findall(r"([\w.>-]+?)\.size\(\)", f.text(init))))
+            if len(sized) != 1:
+                ctx.broken(inst, "anchor", f.loc(i), "the index %s is not computed from the size of one container: %s" % (idx, f.text(init)[:80]))
+                continue
+            src = sized[0]
+            same = cont == src
+            if not same:
+                ci, cv = local_init(f, cont, must=False)
+                same = cv is not None and ci is not None and ci >= 0 and f.text(ci) == src
+            changed = [c for c in f.calls(*SIZE_CHANGERS) if "recv" in f.nodes[c] and f.text(f.nodes[c]["recv"]) in (cont, src)]
+            ctx.check(same and not changed, inst, "provenance (index / container agreement)", f.loc(i),
+                      "the index %s is computed from the size of the sequence it selects in (%s)" % (idx, cont),
+                      "%s selects position %s in %s, but %s is computed from %s.size()%s: when %s is shorter (entries left out, e.g. cgroups whose statistic is "
+                      "unavailable) the iterator %s.begin() + %s and the subscript %s[%s] lie past the end - undefined behaviour inside the tick, a garbage "
+                      "threshold at best" % (f.pq, idx, cont, idx, src, " and the sequence is resized in between" if changed and same else "", cont, cont, idx, cont, idx))
+    ctx.counters["selection_sites"] = n_sites
+    ctx.floor("selection_sites", 1, "nth_element / partial_sort selections in oomd's own code")
+
+
 def run(ctx):
+    selection_index_is_within_the_selected_range(ctx)
+    integer_text_is_decimal(ctx, "C09")
     size_components_kept_in_double(ctx, "C09")
     prerun_walk_visits_every_cgroup(ctx)
     from .C15 import rate_definitions, psi_tables, memory_protection_scheme, refresh_archives_one_tick
